@@ -122,6 +122,7 @@ pub struct LyingIter {
     pub pos: usize,
     pub reported: usize,
     pub reg: Arc<Registry>,
+    pub len_calls: std::cell::Cell<u32>,
 }
 
 impl Iterator for LyingIter {
@@ -134,8 +135,19 @@ impl Iterator for LyingIter {
 }
 
 impl ExactSizeIterator for LyingIter {
+    /// the reported length is the answer to the first call; some iterators answer differently when asked again
+    /// (a safe trait may do that): nothing may be written on the strength of a later, larger answer
     fn len(&self) -> usize {
-        self.reported
+        let calls = self.len_calls.get() + 1;
+        self.len_calls.set(calls);
+        if calls == 1 {
+            return self.reported;
+        }
+        match (self.ids.len() + self.reported) % 3 {
+            0 => self.reported + 5,
+            1 => self.ids.len().max(self.reported),
+            _ => self.reported,
+        }
     }
 }
 
@@ -248,6 +260,7 @@ fn exec(sh: &Shared, thread: usize, op: &Op) {
                 pos: 0,
                 reported: *reported,
                 reg: sh.reg.clone(),
+                len_calls: std::cell::Cell::new(0),
             };
             // items that can never be inserted are exempt from the early-drop rule
             for (k, id) in ids.iter().enumerate() {
@@ -972,7 +985,7 @@ pub fn run_race(opts: &Opts, rep: &mut Report, items_per_writer: u32, writers: u
                     if use_extend && w % 2 == 1 {
                         let ids: Vec<u32> = (base..base + items_per_writer).collect();
                         let n = ids.len();
-                        vec.extend(LyingIter { ids, pos: 0, reported: n, reg: reg.clone() }, |v, c| fill(v.id, c));
+                        vec.extend(LyingIter { ids, pos: 0, reported: n, reg: reg.clone(), len_calls: std::cell::Cell::new(0) }, |v, c| fill(v.id, c));
                     } else {
                         for i in 0..items_per_writer {
                             vec.push(Tracked::new(base + i, reg), |v, c| fill(v.id, c));
